@@ -588,6 +588,11 @@ func (c *ectx) execInner(line string) string {
 		return runSigHistory(c, f[3:])
 	case "sign":
 		return execSign(c, f[2:])
+	case "signclass": // observation made at generation time (SignTxOutput on an unsignable class)
+		if len(f) != 4 {
+			return "bad-op"
+		}
+		return f[3]
 	case "helper": // observation made at generation time (did the signing helper return an error)
 		if len(f) != 8 {
 			return "bad-op"
